@@ -32,6 +32,8 @@ type c13Decl struct {
 	Script   string
 	Marker   string
 	Adjacent bool
+	XLine    int // line / column of a use in the companion file (another document); -1 = none
+	XCol     int
 	UseLines []int // lines where the name is used (0-based)
 	UseCols  []int
 	DeclLine int
@@ -193,8 +195,31 @@ func runC13(c *Ctx) {
 			if pr := RParse([]byte(txt)); !pr.Valid() {
 				panic("harness: C13 generator produced invalid program: " + pr.Err + "\n" + txt)
 			}
+			// a companion document that uses the globals of this file; every one of its lines carries a trailing comment of
+			// its own, so a comment looked up by line number in the wrong document shows up as foreign text
+			var xl []string
+			nLines := strings.Count(txt, "\n") + 2
+			for li := 0; li < nLines; li++ {
+				xl = append(xl, fmt.Sprintf("local xf%d_%d = %d -- companion note %d", fi, li, li, li))
+			}
+			for di := range ds {
+				ds[di].XLine = -1
+				if ds[di].Kind == "global" || ds[di].Kind == "global-function" {
+					at := r.Intn(len(xl) + 1)
+					use := fmt.Sprintf("print(%s) -- companion use %d", ds[di].Name, di)
+					xl = append(xl[:at], append([]string{use}, xl[at:]...)...)
+					for dj := range ds[:di] {
+						if ds[dj].XLine >= at {
+							ds[dj].XLine++
+						}
+					}
+					ds[di].XLine = at
+					ds[di].XCol = len("print(") + 1
+				}
+			}
 			files[rel] = txt
 			decls[rel] = ds
+			files[fmt.Sprintf("hov%dx.lua", fi)] = strings.Join(xl, "\n") + "\n"
 		}
 		if len(files) == 0 {
 			return
@@ -224,8 +249,15 @@ func runC13(c *Ctx) {
 				for i := range d.UseLines {
 					positions = append(positions, [2]int{d.UseLines[i], d.UseCols[i]})
 				}
+				if d.XLine >= 0 {
+					positions = append(positions, [2]int{d.XLine, d.XCol})
+				}
 				for pi, pos := range positions {
-					hv, _, err := srv.Hover(ws.URI(rel), pos[0], pos[1])
+					qrel := rel
+					if d.XLine >= 0 && pi == len(positions)-1 {
+						qrel = strings.TrimSuffix(rel, ".lua") + "x.lua"
+					}
+					hv, _, err := srv.Hover(ws.URI(qrel), pos[0], pos[1])
 					if err != nil {
 						c.Inconclusive("server stopped answering (C01's business)")
 						return
@@ -234,6 +266,8 @@ func runC13(c *Ctx) {
 					where := "use"
 					if pi == 0 {
 						where = "declaration"
+					} else if qrel != rel {
+						where = "use-in-another-file"
 					}
 					cls := fmt.Sprintf("%s|%s|%s", d.Kind, d.Place, where)
 					witness := map[string]interface{}{"file": files[rel], "decl": d, "position": pos}
@@ -293,6 +327,6 @@ func runC13(c *Ctx) {
 	})
 	c.Finish("generated declarations (local number/string/table, global, global function, local function, table member functions t.f / t:m) x comment placement "+
 		"(trailing, block of 1-3 lines above, both, none, block detached by a blank line; separated from the previous declaration by a blank line or directly below it) x script (ASCII, Latin-1, Cyrillic, Greek, CJK, Hangul, astral, mixed) x marker "+
-		"(--, ---, -- *); hover at the declaration and at a use must show a label with the identifier, `local` iff declared local, the literal as written, parameters "+
+		"(--, ---, -- *); hover at the declaration, at a use, and (globals) at a use in a companion document whose own lines all carry comments, must show a label with the identifier, `local` iff declared local, the literal as written, parameters "+
 		"in order, and as documentation exactly the attached comment's bytes (after the tool's documented marker clean-up). distinct_nontrivial = distinct (file, position) hovered", 200)
 }
